@@ -112,6 +112,8 @@ def run(ctx, pool):
     # ---- leg C + B: replay the stuck inputs, and random calls, on the real solver
     jobs = []
     adv = [scs[j] for j in stuck]
+    # the same cycling states asked for an accuracy no iteration can meet (precision 0.0, 1e-300): still a bounded number of evaluations
+    adv += [dict(q, prec=p_) for q in adv[:6] for p_ in (0.0, 1e-300)]
     for a in range(0, len(adv), 8):
         jobs.append((adv[a:a + 8], None))
     tw = TraceWriter()
